@@ -288,7 +288,7 @@ class OrderedMultiDict(dict):
         """
         # E and F are throwback names to the dict() __doc__
         if E is self:
-            return
+            E = ()  # nothing to merge from E, keyword arguments still apply
         self_add = self.add
         if isinstance(E, OrderedMultiDict):
             for k in E:
